@@ -119,8 +119,6 @@ theorem nothing_hidden (env : Env) (s : Screen) (n : Option Nat) (h : Inv s) :
     Inv (step env s (.insertCharacters n)) ∧ Inv (step env s (.deleteCharacters n)) :=
   ⟨inv_insertCharacters h n, inv_deleteCharacters h n⟩
 
-theorem dispatch_ICH (ps : List Nat) (p : Bool) : csiDispatch 64 ps p = [.insertCharacters ps[0]?] := by rfl
-theorem dispatch_DCH (ps : List Nat) (p : Bool) : csiDispatch 80 ps p = [.deleteCharacters ps[0]?] := by rfl
 
 /-- the property's own example: `abcde`, ICH 1 at column 0, DCH 1 gives `abcd ` -/
 example :
